@@ -326,10 +326,13 @@ CtxNext(m0) ==
 (* define() / undef() on an (already parsed) directive line; leaves tok = NEWLINE *)
 ApplyDir(m, li) ==
   LET ln == prog[li]
-      m1 == [m EXCEPT !.pos = @ + Len(DirToks(ln)), !.tok = NlTok, !.ndir = @ + 1] IN
-  IF ln.k = "undef" THEN [m1 EXCEPT !.mac[ln.n] = NoMac]
+      m0 == [m EXCEPT !.pos = @ + Len(DirToks(ln)), !.tok = NlTok, !.ndir = @ + 1] IN
+  IF ln.k = "undef" THEN [m0 EXCEPT !.mac[ln.n] = NoMac]
   ELSE LET new == MkMac(ln)
-           old == m.mac[ln.n] IN
+           old == m.mac[ln.n]
+           m1 == IF old.def /\ \E j \in 1..Len(old.body) : old.body[j].s = FreedS
+                 THEN Fire(m0, "KeywordFreesLit") ELSE m0      \* macroequal reads the freed lit
+       IN
     IF old.def /\ ~MacroEqualC(new, old) THEN [m1 EXCEPT !.err = "redefinition"]
     ELSE IF old.def /\ ~SpaceEqual(new, old) THEN
       IF Dev("MacroequalSpace") THEN Fire([m1 EXCEPT !.mac[ln.n] = new], "MacroequalSpace")
